@@ -11,6 +11,13 @@ import (
 	"verif/internal/ref"
 )
 
+// SeqCase: an analysis that fails part-way, followed by an ordinary one.
+type SeqCase struct {
+	First  string `json:"first"`
+	Second string `json:"second"`
+}
+
+var c10Seq *eng.Kind[SeqCase]
 var c10Fields *eng.Kind[SrcCase]
 
 func init() {
@@ -23,6 +30,21 @@ func init() {
 		Run:         runC10,
 	})
 	c10Fields = eng.NewKind(c, "fields", func(c SrcCase) *eng.Fail { return judgeFields(string(c.Src)) })
+	c10Seq = eng.NewKind(c, "after-refusal", func(c SeqCase) *eng.Fail {
+		// the first analysis may fail or succeed; its outcome must not leak into the second
+		if p := safeParse([]byte(c.First)); !p.panicked && p.err == nil {
+			func() {
+				defer func() { recover() }()
+				formula.ResolveReferenceFields(p.src)
+				formula.ResolveReferenceFieldsNotLocal(p.src)
+			}()
+		}
+		if f := judgeFields(c.Second); f != nil {
+			f.Msg = "after analysing " + c.First + ": " + f.Msg
+			return f
+		}
+		return nil
+	})
 }
 
 // pathOf returns the dotted path of a name / selector chain, ok=false for other nodes.
@@ -373,6 +395,25 @@ func runC10(w *eng.W) {
 			w.Note(fmt.Sprintf("formulas_with_%d_nodes", n), 1)
 			w.Sample("formulas", src)
 			c10Fields.Do(w, SrcCase{Src: Bytes(src)})
+		}
+	}
+	// an analysis that is refused part-way (names already collected) followed by an ordinary one
+	firsts := []string{"leaked + other.path + this.b", "a + (b).c", "[first, (second).k, third]", "f(x, (y).z)", "$l = q, 's'.b", "p ? q : [r].s", "typeof u, f(v).w", "ok1 + ok2"}
+	seconds := []string{"x + y.z", "1", "$l", "f(a)", "[a, b.c, $l.x]", "a ? b : c"}
+	for _, fst := range firsts {
+		if !w.Take() {
+			continue
+		}
+		for _, snd := range seconds {
+			for rep := 0; rep < 3; rep++ {
+				w.State(1)
+				w.Trans(2)
+				w.Trace(1)
+				w.Note("after_refusal", 1)
+				c := SeqCase{fst, snd}
+				w.Sample("after-refusal", c)
+				c10Seq.Do(w, c)
+			}
 		}
 	}
 	// token-level leg: every accepted token sequence over the analysis alphabet
